@@ -236,7 +236,7 @@ def check(rep, tier, seed):
     rng = C.rng_for(seed, "C03s")
     sc = []
     per = 8 if tier == "quick" else 200
-    for fam, nv in (("H1v", 5), ("H2v", 5), ("HEv", 4), ("H3v", 3)):   # H2: added fields declared in the middle; HEv: steps on an enum variant
+    for fam, nv in (("H1v", 5), ("H2v", 5), ("HEv", 4), ("H3v", 3), ("HUv", 3)):   # HUv: constructors that start as unit constructors; H2: added fields declared in the middle; HEv: steps on an enum variant
         ids = [K.index_of(env, f"{fam}{i}") for i in range(nv)]
         for w in range(nv):
             for r in range(nv):
